@@ -391,6 +391,37 @@ example : KeysNodup exChain := by unfold KeysNodup; decide
 example : ((chainLookup exChain 3).2.map (·.key)) = [3, 7, 5] := by decide
 example : ((chainRemove exChain 5).2.map (·.key)) = [7, 3] := by decide
 
+/-! ### Constants used at a second width (finding C05-stream-const-second-width,
+fixed by b2bd1e4)
+
+Between 3c18dfa and b2bd1e4 `Program.Circuit` took the bits of a constant used
+at a second width from the constant's own value while `Program.Stream` still
+adapted the first instance's wires (`padFromFirst`); the oracle found the
+disagreement.  Since b2bd1e4 both do the same (`padFromOwn`; the model of the
+streamer's wire ids, `inputWires`, uses exactly that formula).  History: -/
+
+/-- The two modes agree whenever the first instance of the constant was
+allocated at the constant's own width and the use is at least that wide. -/
+theorem C05_const_pad_partial (v : List Bool) (own bits : Nat) (signed : Bool) (h1 : 0 < own)
+    (h2 : own ≤ v.length) (h3 : own ≤ bits) :
+    padFromFirst (v.take own) signed bits = padFromOwn v own signed bits :=
+  pad_agree v own bits signed h1 h2 h3
+
+/-- Negation witness: the constant `-4` (own size 32, bits of 0xfffffffc) first
+used as `int53` -- `DefineConstants` gives it 53 wires, the upper 21 zero --
+and then as `int40`: streaming truncates the 53 wires (bits 32..39 = 0,
+value 0x00fffffffc), whole-circuit mode sign-extends from bit 31
+(0xfffffffffc).  Go: `int53(-4)` ... `return int40(-4)`. -/
+theorem C05_const_second_width_witness :
+    let v := (List.range 32).map fun i => decide (2 ≤ i)        -- 0xfffffffc, LSB first
+    let first := v ++ List.replicate 21 false                   -- the int53 instance
+    padFromFirst first true 40 ≠ padFromOwn v 32 true 40 ∧
+    (padFromFirst first true 40).getD 35 false = false ∧ (padFromOwn v 32 true 40).getD 35 false = true := by
+  decide
+
+example : padFromFirst ([false, false, true].take 3) true 5 = padFromOwn [false, false, true] 3 true 5 :=
+  C05_const_pad_partial _ 3 5 true (by decide) (by decide) (by decide)
+
 /-- The wire-side theorem applies to the executed instance (`BitVec 128`, any
 block function, offset after `SetS(true)`). -/
 theorem C05_stream_concrete (π : BitVec 128 → BitVec 128) (r0 : BitVec 128) (p : SProg)
